@@ -1,2 +1,3 @@
 import Spec.Scan
 import Spec.Assign
+import Spec.Errors
